@@ -272,9 +272,11 @@ def obs_code(spec, mod):
 
 def render(spec, with_dx=True):
     out = []
+    # spec["scope"]: items named like the type's parameters, in scope next to the definition (type namespace)
+    pre = spec.get("scope") or ""
     if with_dx:
-        out += ["pub mod dx {", type_text(spec, "dx"), "}"]
-    out += ["pub mod sd {", type_text(spec, "sd"), "}", "pub fn run() {"]
+        out += ["pub mod dx {", pre, type_text(spec, "dx"), "}"]
+    out += ["pub mod sd {", pre, type_text(spec, "sd"), "}", "pub fn run() {"]
     if with_dx:
         out.append(obs_code(spec, "dx"))
     out.append(obs_code(spec, "sd"))
@@ -384,6 +386,10 @@ def core():
     specs.append(dict(base, kind="struct", traits=list(ALL8), type_attr="#[repr(packed)]", variants=[{"style": "named", "fields": ["u8", "i32"]}]))
     specs.append(dict(base, kind="struct", traits=["Clone", "Debug", "PartialEq"], entry="derive", type_attr="#[repr(C, packed(2))]",
                       variants=[{"style": "tuple", "fields": ["u8", "pair", "i32"]}]))
+    # a struct / a trait named like the const parameter in scope: `Ty<N>` in an impl header must still mean the parameter
+    for k, sc in enumerate(("pub struct N;", "pub trait N {}", "pub type N = u8;")):
+        specs.append(dict(base, kind="struct" if k % 2 == 0 else "enum", gen="N" if k else "TN", traits=list(ALL8), entry="attr" if k % 2 else "derive", scope=sc, disc=False, dv=0,
+                          variants=[{"style": "unit", "fields": []}, {"style": "tuple", "fields": ["arr", "u8"] + ([] if k else ["T"])}][(0 if k % 2 else 1):]))
     # field types equal up to the lifetime (`&'a T` next to `&'b T`: listed known finding); the same lifetime twice is fine
     no_default = [t for t in ALL8 if t != "Default"]
     specs.append(dict(base, kind="struct", gen="abT", traits=no_default, variants=[{"style": "tuple", "fields": ["refaT", "refbT"]}]))
